@@ -99,6 +99,11 @@ type c13M struct {
 	taken        []bool   // decisions made so far on this path
 	pending      [][]bool // sibling paths discovered on this path
 	firstUnknown string
+	// parameter-alphabet discovery: when a tagged switch is evaluated on the sentinel value,
+	// the integer case labels it is compared with are recorded
+	probeOn    bool
+	probeTag   int64
+	probeCases map[int64]bool
 }
 
 func newC13M(c *Ctx, follow ...string) *c13M {
@@ -1159,6 +1164,9 @@ outer:
 				continue
 			}
 			v := m.eval(fr, ce)
+			if m.probeOn && tag.k == c13Int && tag.i == m.probeTag && v.k == c13Int {
+				m.probeCases[v.i] = true
+			}
 			eq, known := m.eq(tag, v)
 			if !known {
 				eq = m.choose(fmt.Sprintf("case %s at %s", types.ExprString(ce), m.c.P.Pos(ce.Pos())))
